@@ -128,6 +128,13 @@ theorem zipWith_ne_nil {f : ℝ → ℝ → ℝ} {a b : List ℝ} (h : a.length 
     | nil => simp at h
     | cons y b => simp
 
+/-- "the density of the particle depends only on composition (at the fixed T, P)": scaling every component mass
+    by the same c > 0 leaves it unchanged.  This is the hypothesis about `FluidParticle.density`. -/
+def Intensive (ρ : List ℝ → ℝ) : Prop := ∀ (c : ℝ) (m : List ℝ), 0 < c → ρ (m.map (fun x => c * x)) = ρ m
+
+/-- value of column `k` of a (converted) row -/
+def colQ (keys : List String) (k : String) (row : List Rat) : Rat := row.getD (idxOf keys k) 0
+
 theorem pi_pos : (0 : ℝ) < Model.Convert.pi (α := ℝ) := by
   simp only [Model.Convert.pi, Num.real_ofSci]; norm_num
 
@@ -261,5 +268,18 @@ theorem chemOutUnit_eq_fold {rules : List (ChemRule ℝ)} {rulesQ : List ChemRul
       (rulesQ.filter (fun q => ruleMatches q.pat q.hasAlt q.alt u)).foldl (fun _ q => q.out) u := by
   rw [← foldl_ite_eq_foldl_filter]
   exact chemOutUnit_fold_aux h u u
+
+/-- the FULL statement: every block of the chain is the documented one -/
+def ChemChainDocumented : Prop :=
+  ∀ q ∈ chemRulesQ, ∃ s ∈ Std.chem, s.pat = q.pat ∧ q.alt = s.alt ∧ q.hasAlt = (s.alt != "") ∧ q.out = s.out ∧
+    q.usesM = s.usesM ∧ q.b = s.b ∧ Std.ratAbs (q.a - s.a) ≤ s.tol * s.a
+
+instance : Decidable ChemChainDocumented := by unfold ChemChainDocumented; infer_instance
+
+/-- the recorded defect: the block `(L/mol/deg F)` multiplies by 1e-3·(5/9) = 1/1800 -/
+def LmolFDefect : Prop := ∃ q ∈ chemRulesQ, q.pat = "(L/mol/deg F)" ∧ q.a = 1 / 1800
+
+instance : Decidable LmolFDefect := by unfold LmolFDefect; infer_instance
+
 
 end TamocV.Lemmas.C15
